@@ -1,5 +1,10 @@
 use vstd::prelude::*;
-use core::alloc::Layout;
 use core::num::NonZeroUsize;
-use core::ops::Range;
 use super::spec::*;
+
+broadcast use super::lem::kernel_arith;
+
+/// C18: aligning a bump position to `min_align` in bump direction.
+pub open spec fn spec_align_pos(upward: bool, min_align: int, pos: int) -> int {
+    if upward { up(pos, min_align) } else { down(pos, min_align) }
+}
